@@ -573,6 +573,44 @@ fn main() {
 			});
 		}
 	});
+	// compaction x reorg where the spent sibling pairs were created in the very block that is the compaction horizon
+	// (and one block above / below it): shared scenario, after every step the node is compared with the replayed reference
+	std::thread::scope(|s| {
+		let variants: Vec<(usize, bool, i64)> = if run.tier.name() == "thorough" {
+			vec![(2, false, 0), (5, true, 0), (19, false, 0), (3, false, 1), (3, false, -1), (1, true, 0)]
+		} else {
+			vec![(2, false, 0), (7, true, 0), (3, false, 1)]
+		};
+		for (vi, (depth, headers_first, at)) in variants.into_iter().enumerate() {
+			let run = &run;
+			let sc = &sc;
+			s.spawn(move || {
+				init_thread(true);
+				let dir = sc.sub(&format!("hz{}", vi));
+				let seed = run.seed ^ (0xC02E + vi as u64).wrapping_mul(0x9E37_79B9_7F4A_7C15);
+				match vcommon::monitor::catch(|| vcommon::scenarios::compaction_reorg_scenario_opts(seed, depth, &dir, headers_first, Some(at))) {
+					Ok(Ok(st)) => {
+						run.count("compaction_scenarios_with_pairs_created_at_the_horizon_block", 1);
+						run.count("block_deliveries_checked", st.blocks_delivered);
+						run.eval(&format!("compaction_scenario;pairs_at_horizon{:+};depth={};headers_first={}", at, depth, headers_first), true);
+					}
+					Ok(Err((clause, what, replay))) => {
+						if clause == "inconclusive" {
+							run.inconclusive(&what);
+						} else {
+							run.violation(&format!("C02;compaction_scenario;pairs_at_horizon;{}", clause), &what, replay);
+						}
+					}
+					Err(p) => run.violation(
+						&format!("C02;compaction_scenario;pairs_at_horizon;panic@{}", p.location),
+						&p.message,
+						json!({"depth": depth, "headers_first": headers_first, "pairs_created_relative_to_horizon": at}),
+					),
+				}
+				let _ = std::fs::remove_dir_all(&dir);
+			});
+		}
+	});
 	let d = deliveries.load(Ordering::SeqCst);
 	run.count("block_deliveries_checked", d);
 	run.count("reorgs_observed", reorgs.load(Ordering::SeqCst));
@@ -591,6 +629,7 @@ fn main() {
 		}
 		run.require("compactions_that_moved_tail", compactions.load(Ordering::SeqCst), 2);
 		run.require("compaction_at_spending_head_scenarios", run.counter("compaction_at_spending_head_scenarios"), run.tier.pick(2, 8));
+		run.require("compaction scenarios with the spent pairs created at the horizon block", run.counter("compaction_scenarios_with_pairs_created_at_the_horizon_block"), run.tier.pick(3, 6));
 	}
 	drop(m);
 	drop(sc);
